@@ -108,8 +108,8 @@ def generate(repo):
     from_str = spelling_table(bt_rs[i:j], "From<&str>")
     from_string = spelling_table(bt_rs[j:], "From<String>")
     for blk in (bt_rs[i:j], bt_rs[j:]):
-        if "match v.trim()" not in blk:
-            raise TranslatorError("From impl no longer trims")
+        if 'v.split_whitespace().collect::<Vec<_>>().join(" ")' not in blk or "match v.as_str()" not in blk:
+            raise TranslatorError("From impl no longer normalises whitespace the way the model does")
 
     m = re.search(r'const TRAIT_BOUNDS: &str = "([^"]*)";', types_rs)
     if not m:
